@@ -28,6 +28,15 @@ for kind, cap in (("HashMap", 1), ("HashMap", 3), ("HashSet", 1), ("HashSet", 3)
 for kind in ("HashMap", "HashSet", "PoolMap"):
     KD = {"HashSet": ["NV_HASHSET"], "PoolMap": ["NV_POOLMAP"]}.get(kind, [])
     UNITS += [U("swap", "h_swap", "w_HashMap_swap", ["swap.empty_with_full", "swap.full_with_full"], defs=["NV_CAP=1", "NDEBUG"] + KD, name=kind + ".swap")]
+    RD = ["NV_CAP=1", "NDEBUG"] + KD
+    UNITS += [
+        U("removeFront", "h_remove", "w_HashMap_removeFront", ["remove.mid_chain", "remove.only_in_bucket"], defs=RD + ["NV_RM_MODE=1"], name=kind + ".removeFront"),
+        U("removeBack", "h_remove", "w_HashMap_removeBack", ["remove.mid_chain", "remove.only_in_bucket"], defs=RD + ["NV_RM_MODE=2"], name=kind + ".removeBack"),
+        U("remove_key@cap3", "h_remove_key", "w_HashMap_removeKey", ["remove_key.second_in_chain", "remove_key.absent"], defs=["NV_CAP=3", "NDEBUG"] + KD, name=kind + ".remove_key@cap3",
+          cbmc=["--unwind", "4", "--unwinding-assertions"], bound="bucket chain <= 2 nodes"),
+    ]
+    if kind == "PoolMap":
+        UNITS += [U("remove_value", "h_remove", "w_PoolMap_removeValue", ["remove.mid_chain", "remove.only_in_bucket"], defs=RD + ["NV_RM_MODE=3"], name="PoolMap.remove_value")]
 for kind in ("HashMap", "HashSet"):
     KD = ["NV_HASHSET"] if kind == "HashSet" else []
     UNITS += [
@@ -39,7 +48,7 @@ ASSUMPTIONS = [
     "HashMap<long,long>, HashSet<long> and PoolMap<unsigned long,long> are covered (same harness, -DNV_HASHSET / -DNV_POOLMAP)",
     "insert / find: the bucket chain of the key's bucket has at most 2 nodes (the find loop is unwound, no loop contract over chains of unbounded length); "
     "capacity 1 (every key collides) and 3; order list, free list and other buckets are arbitrary -- these two units are proofs relative to that chain bound",
-    "remove(iterator), swap(other): no bound (no loop); swap is checked for two distinct tables with symbolic size, capacity, bucket array, free list and first/last items",
+    "remove(iterator), removeFront(), removeBack(), PoolMap::remove(const V&) (node computed from the element address), swap(other): no bound; remove(key): chain <= 2 nodes, absent key changes nothing (no loop); swap is checked for two distinct tables with symbolic size, capacity, bucket array, free list and first/last items",
     "hash(long) = (usize)value as in Base.hpp",
     "assignment of a table to itself is checked on tables of at most 1 entry (bounded units; assignment from another table exceeds cbmc's memory); whole-table agreement with a reference insertion-ordered map over operation histories is NOT checked (a bounded harness exists in harness/hashmap.cpp, h_b_history, but cbmc returns solver errors on it); it follows from the step contracts by induction over operations (paper)",
 ]
